@@ -218,6 +218,10 @@ static void run(void)
 	uint32_t sparam = strat == SIMRT_STRAT_PCT ? 1 + sim_choose(4) :
 			  strat == SIMRT_STRAT_KPREEMPT ? 1 + sim_choose(3) : 1 + sim_choose(4);
 	bool spin_ok = mode == 0 && sim_choose(3) == 0;
+	/* the ring code has no business with the time; if it ever looks, the clock may be anywhere,
+	 * including the last second before its 32-bit wrap */
+	static const uint32_t clocks[] = { 0, 1000000, 0xfff0bdc0u, 0xfffffff0u, 0xffffffffu, 0x7fffff00u };
+	sim_clock = clocks[sim_choose(6)] + sim_choose(1000);
 	sim_ev("hdr", mode, buf_len, prerotate);
 
 	store = sim_alloc_guarded(buf_len, 32, 0xd7);
